@@ -105,6 +105,15 @@ CHECKS = {
         note="Four defects found by this check were repaired (F11, F12, F13, F14). The GHW alias range arithmetic (register_bit_vec / find_or_add_alias) and end-to-end GHW files are exercised under C11. "
              "The composition slice ∘ load is differential, the per-value theorems are unbounded.",
     ),
+    "C10": dict(
+        technique="Lean 4 proof (expand_entries = rewrite under the wider kind, writer entry = loader entry layout; case analysis over all kind triples and width residues) + exhaustive state-order differential + corpus VCD/FST pairs",
+        text="Lean theorems C10_expand_is_rewrite (an entry written under a narrower maximum, once widened, is byte for byte the entry written under the wider kind: order independence of 2/4/9-state values), "
+             "C10_writer_uses_entry_layout, C10_writer_entry (entry round trip). The real SignalWriter (hook) is driven with every sequence of value kinds of length <= 4 at widths 1..24 and random histories "
+             "(release and debug-assertion builds) against the Lean model and canon of the callback history; every corpus x.vcd / x.vcd.fst pair is loaded through both paths and compared variable by variable.",
+        design_ref="DESIGN.md section 5 / C10",
+        note="The FST container (blocks, compression, hierarchy entries, time chain) is parsed by the fst-reader dependency: not modelled; covered only by the 33 corpus pairs (hierarchy names/widths, time table, values). "
+             "No FST files are generated (no writer was built), so hierarchy-entry kinds, aliases, enum tables and multi-block distribution are covered by corpus files only. convert_timescale is modelled but not in the quick run.",
+    ),
 }
 
 NOT_YET = "check not built yet in this round (machinery under construction; see DESIGN.md section 10 for the order of work)"
